@@ -299,11 +299,12 @@ package resource_info
 
 //@ func (ResourceVector).Set
 //@   props C01 C14
-//@   modifies v[*]
-//@   ensures forall i in v :: v[i] == ite(i == index, value, old(v[i]))
+//@   inline
 //@ end
 
 // the two slices do not share a backing array (a slice compared with a reference compares its array)
+// the backing array of a slice result is newly allocated (`fresh` is not asserted for slice-typed results at call sites)
+//@ define freshArray(a ResourceVector) bool = forall x ref :: a == x ==> fresh(x)
 //@ define distinctArrays(a ResourceVector, b ResourceVector) bool = forall x ref :: a == x ==> b != x
 
 //@ func (*ResourceVector).Add
@@ -332,6 +333,45 @@ package resource_info
 //@     invariant forall i int :: 0 <= i && i < len(other) ==> other[i] == old(other[i])
 //@   ensures forall i int :: 0 <= i && i < len(*v) ==> (*v)[i] == old((*v)[i]) - vget(other, i)
 //@   ensures forall i int :: 0 <= i && i < len(other) ==> other[i] == old(other[i])
+//@ end
+
+// index of a resource name in the shared vector layout (GPU resource names are normalised to "gpu"); -1 if unknown
+//@ func (*ResourceVectorMap).GetIndex
+//@   props C01 C14
+//@   requires m != nil
+//@   pure
+//@   ensures result == ite(normalizeResourceName(resourceName) in m.namesToIndex, m.namesToIndex[normalizeResourceName(resourceName)], 0 - 1)
+//@ end
+
+//@ func NewResourceVector
+//@   props C01 C14
+//@   requires indexMap != nil
+//@   fresh
+//@   ensures len(result) == len(indexMap.resourceNames)
+//@   ensures freshArray(result)
+//@   ensures forall i int :: 0 <= i && i < len(result) ==> result[i] == 0.0
+//@ end
+
+//@ func NewSingleGpuVector
+//@   props C01 C02 C14
+//@   requires indexMap != nil
+//@   fresh
+//@   ensures len(result) == len(indexMap.resourceNames)
+//@   ensures freshArray(result)
+//@   ensures forall i int :: 0 <= i && i < len(result) ==> result[i] == ite(i == indexMap.GetIndex("gpu"), 1.0, 0.0)
+//@ end
+
+// Vector form of a Resource. Content beyond the length is not specified here: two scalar names may normalise to the
+// same index (any name ending in "gpu"), in which case the value depends on the map iteration order.
+//@ func (*Resource).ToVector
+//@   props C01 C14
+//@   requires r != nil && indexMap != nil
+//@   fresh
+//@   loop 1
+//@     invariant len(vec) == len(indexMap.resourceNames) && freshArray(vec)
+//@     invariant forall p *float64 :: p != nil && !fresh(p) ==> *p == old(*p)
+//@   ensures len(result) == len(indexMap.resourceNames)
+//@   ensures freshArray(result)
 //@ end
 
 // ---- emptiness (C01: a best-effort task requests nothing above the minimal quantities) ----------------
